@@ -98,6 +98,7 @@ type Ctx struct {
 	pathFact    map[int]bool
 	priorRefs   []string
 	allocClock  int
+	arrFieldSeen map[string]string
 	stableFV  map[string]bool
 	provIDs   map[string]int
 	chanLinksUsed map[string]bool
